@@ -7,7 +7,7 @@ import ast
 import z3
 from pyvc.values import *   # noqa
 from pyvc.harness import unit, mutate_function, replace_compare
-from pyvc.loops import LoopSpec, loop_table
+from pyvc.loops import LoopSpec, loop_table, Sel
 from pyvc.ctx import Undecided
 from pyvc.interp import Interp, PyExc, Frame, _Return
 from pyvc import source
@@ -54,6 +54,19 @@ class Win(ByteStr):
             return NotImplemented
         a, b = (o, self) if swapped else (self, o)
         return cat(a, b)
+
+    def call_method(self, I, name, args, kw):
+        # sep.join(list of bytes) with an empty separator: the concatenation of the items in order
+        if name == 'join' and len(args) == 1 and not is_sym(self.n) and self.n == 0:
+            c = I.ctx.cell(args[0]) if isinstance(args[0], Ref) else args[0]
+            items = list(c.items) if isinstance(c, PList) else (list(c) if isinstance(c, tuple) else None)
+            if items is None or any(to_bytestr(x) is None for x in items):
+                return NotImplemented
+            r = Win(z3.K(I_, z3.IntVal(0)), 0, 0)
+            for x in items:
+                r = cat(r, to_bytestr(x))
+            return r
+        return NotImplemented
 
 
 def cat(a, b):
@@ -854,3 +867,70 @@ def tcpserver_bind(ctx):
     else:
         ctx.prove(out == 'OSError', 'C14:O14.7.bind.only-socket-errors-escape', info=out)
         ctx.prove(f[TS('state')] != 1 and len(subs) == 0, 'C14:O14.7.bind.failed-bind-leaves-the-server-unbound-and-unsubscribed')
+
+
+# ------------------------------------------------------------------------------------------------ the read loop as a whole
+def _read_loop_spec(ctx, conn):
+    """`while self.__processRead(...)`: at every loop head the connection has not been disconnected by this loop; one more round either
+    appends exactly the received bytes (in order) to the logical read buffer or ends the loop"""
+    st = {}
+
+    def head_state():
+        return fld(ctx, conn, 'readBuffer')
+
+    def inv(I, fr, it):
+        c = ctx.cell(conn).fields
+        return [('not-disconnected-so-far', And(c[TC('state')] == CONNECTED, len(ctx.glist('disconnects')) == 0))]
+
+    def havoc(I, fr):
+        c = ctx.cell(conn)
+        rb = fresh_win(ctx, 'rbufAtLoopHead')
+        ctx.setcell(conn, c.with_field(TC('readBuffer'), rb))
+        st['head'] = rb
+        st['wire0'] = len(ctx.glist('wire_in'))
+        ctx.ghost['read_loop'] = st
+
+    def check(I, fr, it):
+        if 'head' not in st:
+            return []
+        win = ctx.glist('wire_in')[st['wire0']:]
+        if len(win) != 1:
+            return []
+        inc, rb0, rb1 = win[0], st['head'], head_state()
+        j = FreshInt('j')
+        n0 = to_z3(rb0.n)
+        if not isinstance(rb1, Win):
+            return [('O13.3.read-buffer-is-bytes', False)]
+        return [('O13.3.round-appends-exactly-the-received-bytes', And(Eq(rb1.n, n0 + to_z3(inc.n)),
+                                                                      Implies(And(j >= 0, j < n0), rb1.at(j) == rb0.at(j)),
+                                                                      Implies(And(j >= 0, j < to_z3(inc.n)), rb1.at(n0 + j) == inc.at(j))))]
+    return LoopSpec('C13:O13.3.read-loop', inv, havoc=havoc, check=check, keep=('self',)), st
+
+
+@unit(name='tcp.tryReadBuffer', relpath=TMOD, qual=['TcpConnection.__tryReadBuffer', 'TcpConnection.__processRead'], props=['C13', 'C14'],
+      doc='O13.3/O13.5 (read loop as a whole): every round appends exactly the bytes received in it to the read buffer, in order; the loop ends '
+          'with the first read that yields nothing; when it ends because the connection died, the read buffer is empty afterwards - no byte of '
+          'a dead connection is left for the parser (nor for a connection re-established from the disconnect callback); the last-read time is '
+          'refreshed; no exception escapes',
+      trusted=['T-SOCKET'])
+def tcp_try_read_buffer(ctx):
+    conn, rbuf, wbuf, st0, sock = mk_conn(ctx, CONNECTED)
+    mod = source.load(TMOD)
+    spec, st = _read_loop_spec(ctx, conn)
+    loops = {'TcpConnection.__tryReadBuffer': loop_table(mod, 'TcpConnection.__tryReadBuffer', {Sel('while'): spec})}
+    last0 = fld(ctx, conn, 'lastReadTime')
+    outcome, r, I = run_tc(ctx, conn, '__tryReadBuffer', [], loops=loops)
+    ctx.prove(outcome == 'ok', 'C13:O13.3.read-loop.no-exception-escapes', info=outcome)
+    if outcome != 'ok':
+        return
+    rb1 = fld(ctx, conn, 'readBuffer')
+    disc = ctx.glist('disconnects')
+    head = st.get('head')
+    if disc:
+        ctx.prove(isinstance(rb1, Win) and Eq(rb1.n, 0), 'C13+C14:O13.5.a-dead-connection-leaves-no-bytes-in-the-read-buffer', info=repr(getattr(rb1, 'n', rb1)))
+        ctx.prove(fld(ctx, conn, 'state') == DISCONNECTED, 'C13+C14:O13.5.disconnected-state-after-a-failed-read')
+    elif head is not None:
+        j = FreshInt('j')
+        ctx.prove(isinstance(rb1, Win) and And(Eq(rb1.n, head.n), Implies(And(j >= 0, j < to_z3(head.n)), rb1.at(j) == head.at(j))),
+                  'C13:O13.3.read-loop.nothing-added-after-the-last-successful-read')
+    ctx.prove(fld(ctx, conn, 'lastReadTime') is not last0, 'C13+C14:O13.3.read-loop.last-read-time-refreshed')
